@@ -123,16 +123,29 @@ class Flow(object):
             if pscope:
                 snames = pscope.names
                 if isinstance(self.scope, ClassScope):
-                    return MergedDict(snames)
+                    return self._declared_globals(MergedDict(snames))
                 elif self.scope is self.scope.top:
                     # module level code sees names bound via ``global`` in functions and,
                     # like a class body, falls back to builtins for names it binds later
                     return MergedDict(self.scope.top._global_names, snames)
                 else:
                     outer_names = set(snames).difference(self.scope.locals)
-                    return {n: snames[n] for n in outer_names}
+                    return self._declared_globals({n: snames[n] for n in outer_names})
             else:
                 return {}
+
+    def _declared_globals(self, names):
+        # type: (t.Mapping[str, Name | MultiName]) -> t.Mapping[str, Name | MultiName]
+        """Names declared global are module level names whatever
+        the enclosing functions bind"""
+        declared = self.scope.globals
+        if not declared:
+            return names
+
+        top_names = self.scope.top.names
+        result = {n: v for n, v in names.items() if n not in declared}
+        result.update((n, top_names[n]) for n in declared if n in top_names)
+        return result
 
     def names_at(self, loc):
         # type: (loc_t) -> t.Mapping[str, Name | MultiName]
